@@ -174,6 +174,13 @@ fn backend(listener: TcpListener, scn: Scn, until: Instant) {
                 let _ = s.write_all(b"\x00\x01GARBAGE NOT HTTP\r\n\r\n\xff\xfe");
                 held.push(s);
             }
+            "cl_close_twice" => {
+                // e2e test_keep_alive shape: a complete Content-Length response carrying
+                // "Connection: close", then the backend closes ITS connection
+                let _ = s.write_all(full_clc.as_bytes());
+                let _ = s.flush();
+                let _ = s.shutdown(Shutdown::Both);
+            }
             "keepalive_close" => {
                 // answer one request completely, then close the connection between requests
                 let _ = s.write_all(full_cl.as_bytes());
@@ -311,7 +318,7 @@ fn client(front: SocketAddr, scn: Scn) -> Vec<Resp> {
             let _ = s.write_all(&req.as_bytes()[..req.len() - 6]);
             out.push(read_response(&mut s, &mut acc, true));
         }
-        "keepalive_close" => {
+        "keepalive_close" | "cl_close_twice" => {
             let _ = s.write_all(req.as_bytes());
             let r1 = read_response(&mut s, &mut acc, false);
             let ok = r1.complete && !r1.eof;
